@@ -228,6 +228,17 @@ class CliResult:
         return {'rc': self.rc, 'stdout': self.out.decode('utf-8', 'replace'), 'stderr': self.err.decode('utf-8', 'replace')[-2000:]}
 
 
+CRASH_MARKS = (b'panic:', b'fatal error:', b'goroutine ', b'runtime error', b'SIGSEGV', b'VERIF-STEP-BUDGET')
+
+
+def crashed(rc, stderr):
+    """Did the process die rather than report? (timeout, signal, step budget, or Go runtime crash output;
+    which non-zero status a tool uses for reported errors is not judged)"""
+    if isinstance(stderr, str):
+        stderr = stderr.encode('utf-8', 'replace')
+    return rc is None or rc < 0 or rc == 97 or any(m in (stderr or b'') for m in CRASH_MARKS)
+
+
 def cli(argv, cwd, env=None, stdin=b'', timeout=WATCHDOG_S, budget=STEP_BUDGET):
     env = dict(env) if env is not None else scrub_env()
     if budget:
@@ -382,7 +393,7 @@ def file_crosscheck(ctx, res, docs, want_ok, want_json, detail, rng):
         r = cli([ctx.bin('bkl'), '-f', 'json', 'in.' + fmt], cwd=d)
         res.execs += 1
         res.labels.add('via:file-' + fmt)
-        if r.rc not in (0, 1) or b'panic:' in r.err:
+        if crashed(r.rc, r.err):
             res.violate('crash', 'bkl binary died rc=%s %s' % (r.rc, r.err[-300:].decode('utf-8', 'replace')), file_format=fmt, text=text, **detail)
             return False
         if (r.rc == 0) != want_ok:
